@@ -137,6 +137,9 @@ func executeRun(t *testing.T, scn Scenario, c interface{}, tape *sched.Tape, pro
 		})
 	}()
 	watchdogSim.Store(nil)
+	if out != nil && out.Post != nil {
+		out.Post(out)
+	}
 	return out, sim
 }
 
